@@ -14,24 +14,29 @@ open RV
 variable {K : Type} [Field K] [LinearOrder K] [IsStrictOrderedRing K]
 
 /-- what the state machine needs to know about an adaptive integrator running in direction `sg`:
-    called with a step pointing in direction `sg`, it proposes a next step of at least `δ` (min_dt) in
-    the same direction and either rejects the whole step (`t`, `dt_last_done` untouched — only the
-    first `R` calls may do that) or advances time by `dt_last_done`, which points in direction `sg`,
-    is no longer than the step it was called with (IAS15 retries inside the step with smaller steps)
-    and is at least `δ` long unless it is the complete step it was asked to do. -/
-def IsAdaptive (step : StepFn K) (sg δ : K) (R : Nat) : Prop :=
-  ∀ k t dt dld, 0 < dt * sg →
-    δ ≤ (step k t dt dld).dt * sg ∧
-    ((k < R ∧ (step k t dt dld).t = t ∧ (step k t dt dld).dld = dld) ∨
+    called with a step of size at most `B` pointing in direction `sg`, it proposes a next step in the
+    same direction and either rejects the whole step (`t`, `dt_last_done` untouched, proposal at
+    least `δ` — only the first `R` calls may do that) or advances time by `dt_last_done`, which points in
+    direction `sg`, is no longer than the step it was called with (IAS15 retries inside the step with
+    smaller steps) and is at least `δ` long unless it is the complete step it was asked to do; the
+    proposal is at least `δ` (min_dt) unless the step just completed was itself a requested step shorter
+    than `δ` (IAS15 limits the growth to four times the step just done, so after a last step cut to
+    fit `tmax` the proposal may stay below `min_dt`). -/
+def IsAdaptive (step : StepFn K) (sg δ : K) (R : Nat) (B : K) : Prop :=
+  ∀ k t dt dld, 0 < dt * sg → dt * sg ≤ B →
+    0 < (step k t dt dld).dt * sg ∧
+    ((k < R ∧ (step k t dt dld).t = t ∧ (step k t dt dld).dld = dld ∧ δ ≤ (step k t dt dld).dt * sg) ∨
      ((step k t dt dld).t = t + (step k t dt dld).dld ∧ 0 < (step k t dt dld).dld * sg ∧
       (step k t dt dld).dld * sg ≤ dt * sg ∧
-      (δ ≤ (step k t dt dld).dld * sg ∨ (step k t dt dld).dld = dt)))
+      (δ ≤ (step k t dt dld).dld * sg ∨ (step k t dt dld).dld = dt) ∧
+      (δ ≤ (step k t dt dld).dt * sg ∨ ((step k t dt dld).dld = dt ∧ dt * sg < δ))))
 
 /-- invariant when `reb_check_exit` is entered -/
 structure AInv (tmax sg δ : K) (s : Sim K) (lf : K) : Prop where
   st : s.status = -1 ∨ s.status = -2
   ex : s.exactFinish = 1
-  dt : δ ≤ s.dt * sg
+  pos : 0 < s.dt * sg
+  dt : δ ≤ s.dt * sg ∨ s.t = tmax
   rem : 0 ≤ (tmax - s.t) * sg
   run : s.status = -1 → 0 < (tmax - s.t) * sg
   dld : s.dtLastDone = 0 ∨ δ ≤ s.dtLastDone * sg ∨ s.t = tmax
@@ -61,8 +66,8 @@ theorem check_adaptive (tmax sg δ : K) (hsg : sg = 1 ∨ sg = -1) (hδ : 0 < δ
         (s'.t = tmax ∨ |s'.t - tmax| < tscale tmax) ∧ s'.hist = s.hist ∧ s'.exactFinish = 1) ∨
     (∃ s1 lf1, checkExit s tmax false lf f = .ret s1 lf1 ∧ BInv tmax sg δ s1 lf1 ∧ s1.t = s.t ∧
         s1.hist = s.hist ∧ s1.dtLastDone = s.dtLastDone) := by
-  have hc : copysign 1 s.dt = sg := copysign_one_dir hsg (lt_of_lt_of_le hδ inv.dt)
-  rw [checkExit_run s tmax lf f inv.st hf.2.2.2.2.2.1 hf.2.2.2.2.2.2]
+  have hc : copysign 1 s.dt = sg := copysign_one_dir hsg inv.pos
+  rw [checkExit_run s tmax lf f inv.st hf.1.2.2.2.2.2.1 hf.1.2.2.2.2.2.2]
   simp only [inv.ex, if_true, hc]
   by_cases hnear : tmax * sg ≤ (s.t + s.dt) * sg
   · simp only [hnear, if_true]
@@ -115,9 +120,13 @@ theorem check_adaptive (tmax sg δ : K) (hsg : sg = 1 ∨ sg = -1) (hδ : 0 < δ
     right
     have hfar : s.dt * sg < (tmax - s.t) * sg := by
       have := not_le.mp hnear; nlinarith
-    have hpos : 0 < s.dt * sg := lt_of_lt_of_le hδ inv.dt
+    have hpos : 0 < s.dt * sg := inv.pos
     have hne : s.t ≠ tmax := by
       intro h; rw [h] at hfar; simp at hfar; linarith
+    have hdtδ : δ ≤ s.dt * sg := by
+      rcases inv.dt with h | h
+      · exact h
+      · exact absurd h hne
     have hdld : s.dtLastDone = 0 ∨ δ ≤ s.dtLastDone * sg := by
       rcases inv.dld with h | h | h
       · exact Or.inl h
@@ -126,27 +135,28 @@ theorem check_adaptive (tmax sg δ : K) (hsg : sg = 1 ∨ sg = -1) (hδ : 0 < δ
     rcases inv.st with hst | hst
     · have h2 : ¬ s.status = -2 := by rw [hst]; norm_num
       simp only [h2, if_false]
-      exact ⟨_, _, rfl, ⟨Or.inl hst, (by first | rfl | exact inv.ex), hpos, Or.inl ⟨hfar, inv.dt⟩, fun _ => hfar, hdld, inv.lf⟩, rfl, rfl, rfl⟩
+      exact ⟨_, _, rfl, ⟨Or.inl hst, (by first | rfl | exact inv.ex), hpos, Or.inl ⟨hfar, hdtδ⟩, fun _ => hfar, hdld, inv.lf⟩, rfl, rfl, rfl⟩
     · simp only [hst, if_true]
-      exact ⟨_, _, rfl, ⟨Or.inl rfl, (by first | rfl | exact inv.ex), hpos, Or.inl ⟨hfar, inv.dt⟩, fun _ => hfar, hdld, inv.lf⟩, rfl, rfl, rfl⟩
+      exact ⟨_, _, rfl, ⟨Or.inl rfl, (by first | rfl | exact inv.ex), hpos, Or.inl ⟨hfar, hdtδ⟩, fun _ => hfar, hdld, inv.lf⟩, rfl, rfl, rfl⟩
 
 /-- one step under the invariant: the invariant is re-established and the potential
     `N + (R − k)` drops (`N·δ` bounds the remaining distance, `R − k` the rejections still allowed) -/
 theorem step_adaptive (step : StepFn K) (tmax sg δ : K) (R : Nat) (hsg : sg = 1 ∨ sg = -1)
-    (hδ : 0 < δ) (had : IsAdaptive step sg δ R) (k : Nat) (s1 : Sim K) (lf1 : K) (N : Nat)
-    (b : BInv tmax sg δ s1 lf1) (hN : (tmax - s1.t) * sg ≤ N * δ) :
+    (hδ : 0 < δ) (B : K) (had : IsAdaptive step sg δ R B) (k : Nat) (s1 : Sim K) (lf1 : K) (N : Nat)
+    (b : BInv tmax sg δ s1 lf1) (hN : (tmax - s1.t) * sg ≤ N * δ) (hB : (tmax - s1.t) * sg ≤ B) :
     ∃ N' : Nat, AInv tmax sg δ (stepped step k s1) lf1 ∧
       (tmax - (stepped step k s1).t) * sg ≤ N' * δ ∧ N' + (R - (k + 1)) + 1 ≤ N + (R - k) ∧
+      (tmax - (stepped step k s1).t) * sg ≤ B ∧
       MonoBeat tmax sg ⟨s1.t, s1.dt, (stepped step k s1).t, (stepped step k s1).dt,
         (stepped step k s1).dtLastDone, s1.status⟩ := by
-  obtain ⟨hdt', hcase⟩ := had k s1.t s1.dt s1.dtLastDone b.pos
   have hle : s1.dt * sg ≤ (tmax - s1.t) * sg := by
     rcases b.kind with h | h
     · exact h.1.le
     · rw [h.2]
+  obtain ⟨hdt', hcase⟩ := had k s1.t s1.dt s1.dtLastDone b.pos (le_trans hle hB)
   have hrem : 0 < (tmax - s1.t) * sg := lt_of_lt_of_le b.pos hle
-  rcases hcase with ⟨hk, ht, hd⟩ | ⟨ht, hp, hple, hmin⟩
-  · refine ⟨N, ⟨by simpa using b.st, by simpa using b.ex, by simpa using hdt', ?_, ?_, ?_, b.lf⟩, ?_, by omega, ?_⟩
+  rcases hcase with ⟨hk, ht, hd, hprop⟩ | ⟨ht, hp, hple, hmin, hprop⟩
+  · refine ⟨N, ⟨by simpa using b.st, by simpa using b.ex, by simpa using hdt', Or.inl (by simpa using hprop), ?_, ?_, ?_, b.lf⟩, ?_, by omega, ?_, ?_⟩
     · rw [stepped_t, ht]; exact hrem.le
     · intro h; rw [stepped_t, ht]; exact hrem
     · rw [stepped_dld, hd]
@@ -154,6 +164,7 @@ theorem step_adaptive (step : StepFn K) (tmax sg δ : K) (R : Nat) (hsg : sg = 1
       · exact Or.inl h
       · exact Or.inr (Or.inl h)
     · rw [stepped_t, ht]; exact hN
+    · rw [stepped_t, ht]; exact hB
     · simp only [MonoBeat, stepped_t, ht]
       exact ⟨le_refl _, by nlinarith⟩
   · have hN1 : 1 ≤ N := by
@@ -169,7 +180,14 @@ theorem step_adaptive (step : StepFn K) (tmax sg δ : K) (R : Nat) (hsg : sg = 1
         · left; rw [h]; exact hk.2
         · right; exact ⟨h, hk.2⟩
     have hrem' : 0 ≤ (tmax - (s1.t + (step k s1.t s1.dt s1.dtLastDone).dld)) * sg := by nlinarith
-    refine ⟨N - 1, ⟨by simpa using b.st, by simpa using b.ex, by simpa using hdt', ?_, ?_, ?_, b.lf⟩, ?_, by omega, ?_⟩
+    have hprop' : δ ≤ (stepped step k s1).dt * sg ∨ (stepped step k s1).t = tmax := by
+      rcases hprop with h | ⟨h1, h2⟩
+      · left; simpa using h
+      · right
+        rcases b.kind with hk | hk
+        · exact absurd hk.2 (not_le.mpr h2)
+        · rw [stepped_t, ht, h1, hk.2]; ring
+    refine ⟨N - 1, ⟨by simpa using b.st, by simpa using b.ex, by simpa using hdt', hprop', ?_, ?_, ?_, b.lf⟩, ?_, by omega, ?_, ?_⟩
     · rw [stepped_t, ht]; exact hrem'
     · intro h
       rw [stepped_t, ht]
@@ -188,41 +206,42 @@ theorem step_adaptive (step : StepFn K) (tmax sg δ : K) (R : Nat) (hsg : sg = 1
           nlinarith
         have e : (tmax - (s1.t + (tmax - s1.t))) * sg = 0 := by ring
         rw [e]; exact this
+    · rw [stepped_t, ht]; nlinarith
     · simp only [MonoBeat, stepped_t, ht]
       exact ⟨by nlinarith, by nlinarith⟩
 
 /-- the adaptive loop terminates inside the window -/
 theorem loop_adaptive (step : StepFn K) (env : Nat → Flags) (henv : ∀ k, (env k).Clear)
-    (tmax sg δ : K) (R : Nat) (hsg : sg = 1 ∨ sg = -1) (hδ : 0 < δ) (had : IsAdaptive step sg δ R) :
+    (tmax sg δ : K) (R : Nat) (hsg : sg = 1 ∨ sg = -1) (hδ : 0 < δ) (B : K) (had : IsAdaptive step sg δ R B) :
     ∀ (m N k : Nat) (s : Sim K) (lf : K), AInv tmax sg δ s lf → (tmax - s.t) * sg ≤ N * δ →
-      N + (R - k) ≤ m → ∀ fuel, m + 1 ≤ fuel →
+      (tmax - s.t) * sg ≤ B → N + (R - k) ≤ m → ∀ fuel, m + 1 ≤ fuel →
       ∃ s' lf', loop step env tmax false fuel k s lf = (.done s', lf') ∧ s'.status = 0 ∧
         (s'.t = tmax ∨ |s'.t - tmax| < tscale tmax) ∧ δ ≤ lf' * sg ∧ s'.exactFinish = 1 ∧
         (∀ b ∈ s'.hist, b ∈ s.hist ∨ MonoBeat tmax sg b) := by
   intro m
   induction m with
   | zero =>
-    intro N k s lf inv hN hm fuel hfuel
+    intro N k s lf inv hN hB hm fuel hfuel
     obtain ⟨f, rfl⟩ : ∃ f, fuel = f + 1 := ⟨fuel - 1, by omega⟩
     rcases check_adaptive tmax sg δ hsg hδ s lf (env k) (henv k) inv with
       ⟨s', hce, h0, hw, hh, hx⟩ | ⟨s1, lf1, hce, b, ht1, hh1, hd1⟩
     · exact ⟨s', lf, loop_of_ret_done step env tmax false f k s s' lf lf hce (by rw [h0]; norm_num),
         h0, hw, inv.lf, hx, fun b hb => Or.inl (hh ▸ hb)⟩
-    · obtain ⟨N', _, _, hmeas, _⟩ := step_adaptive step tmax sg δ R hsg hδ had k s1 lf1 N b (by rw [ht1]; exact hN)
+    · obtain ⟨N', _, _, hmeas, _⟩ := step_adaptive step tmax sg δ R hsg hδ B had k s1 lf1 N b (by rw [ht1]; exact hN) (by rw [ht1]; exact hB)
       omega
   | succ m ih =>
-    intro N k s lf inv hN hm fuel hfuel
+    intro N k s lf inv hN hB hm fuel hfuel
     obtain ⟨f, rfl⟩ : ∃ f, fuel = f + 1 := ⟨fuel - 1, by omega⟩
     rcases check_adaptive tmax sg δ hsg hδ s lf (env k) (henv k) inv with
       ⟨s', hce, h0, hw, hh, hx⟩ | ⟨s1, lf1, hce, b, ht1, hh1, hd1⟩
     · exact ⟨s', lf, loop_of_ret_done step env tmax false f k s s' lf lf hce (by rw [h0]; norm_num),
         h0, hw, inv.lf, hx, fun b hb => Or.inl (hh ▸ hb)⟩
-    · obtain ⟨N', inv', hN', hmeas, hmono⟩ :=
-        step_adaptive step tmax sg δ R hsg hδ had k s1 lf1 N b (by rw [ht1]; exact hN)
+    · obtain ⟨N', inv', hN', hmeas, hB', hmono⟩ :=
+        step_adaptive step tmax sg δ R hsg hδ B had k s1 lf1 N b (by rw [ht1]; exact hN) (by rw [ht1]; exact hB)
       have hneg : s1.status < 0 := by rcases b.st with h | h <;> rw [h] <;> norm_num
       rw [loop_of_ret_neg step env tmax false f k s s1 lf lf1 hce hneg,
         stepAndBeat_clear step k s1 (env (k + 1)) (henv (k + 1))]
-      obtain ⟨s', lf', hl, h0, hw, hlf, hx, hhist⟩ := ih N' (k + 1) (stepped step k s1) lf1 inv' hN' (by omega) f (by omega)
+      obtain ⟨s', lf', hl, h0, hw, hlf, hx, hhist⟩ := ih N' (k + 1) (stepped step k s1) lf1 inv' hN' hB' (by omega) f (by omega)
       refine ⟨s', lf', hl, h0, hw, hlf, hx, ?_⟩
       intro b' hb'
       rcases hhist b' hb' with h | h
